@@ -477,8 +477,10 @@ def var2h(se, nbsec_per_period=3600, maxgapsec=5*86400,
     display = np.int32(display)
     varvalues = se.values.astype(np.float64)
 
+    # Number of seconds since 1970 whatever the storage
+    # resolution of the index (ns, us, ms or s)
     time = se.index.tz_localize(None).values
-    varsec = np.int64(time.astype(np.int64)/1000000000)
+    varsec = time.astype("datetime64[s]").astype(np.int64)
 
     # Determines start and end of time series
     start = se.index[0]
